@@ -29,7 +29,7 @@ func runPP(stdin []byte, env []string, args ...string) ppResult {
 	cmd.Stdin = bytes.NewReader(stdin)
 	var so, se bytes.Buffer
 	cmd.Stdout, cmd.Stderr = &so, &se
-	cmd.Env = append([]string{"GOTRACEBACK=all", "TERM=dumb", "HOME=" + os.Getenv("VERIF_WORK"), "GOPATH=" + filepath.Join(os.Getenv("VERIF_WORK"), "nogopath"), "PATH=" + os.Getenv("PATH")}, env...)
+	cmd.Env = append([]string{"GOTRACEBACK=all", "TERM=dumb", "HOME=" + os.Getenv("VERIF_WORK"), "GOPATH=" + filepath.Join(os.Getenv("VERIF_WORK"), "nogopath"), "PATH=" + os.Getenv("PATH"), "GOCOVERDIR=" + os.Getenv("GOCOVERDIR")}, env...)
 	err := cmd.Run()
 	res := ppResult{Stdout: so.Bytes(), Stderr: se.Bytes()}
 	if ctx.Err() != nil {
@@ -67,7 +67,7 @@ func runPPEnv(stdin []byte, unsetTraceback bool, args ...string) ppResult {
 	cmd.Stdin = bytes.NewReader(stdin)
 	var so, se bytes.Buffer
 	cmd.Stdout, cmd.Stderr = &so, &se
-	cmd.Env = []string{"TERM=dumb", "HOME=" + os.Getenv("VERIF_WORK"), "GOPATH=" + filepath.Join(os.Getenv("VERIF_WORK"), "nogopath"), "PATH=" + os.Getenv("PATH")}
+	cmd.Env = []string{"TERM=dumb", "HOME=" + os.Getenv("VERIF_WORK"), "GOPATH=" + filepath.Join(os.Getenv("VERIF_WORK"), "nogopath"), "PATH=" + os.Getenv("PATH"), "GOCOVERDIR=" + os.Getenv("GOCOVERDIR")}
 	err := cmd.Run()
 	res := ppResult{Stdout: so.Bytes(), Stderr: se.Bytes()}
 	if ctx.Err() != nil {
